@@ -370,10 +370,23 @@ def w_cli(ctx, wid, seed, examples):
         if any(o['value'] < 0 for o in t.vout):
             ctx.count('cli:negative-amount-displayed')
         # a truncated --tx must be rejected with a diagnostic, non-interactively
-        r = cli.run(cli.binpath('btcdeb'), ['--tx=' + enc[:-1].hex()], stdin=b'0x51\n')
-        if r.abnormal or r.rc != 1 or not r.err.strip():
-            ctx.violations.append(dict(campaign='cli', why='truncated --tx not rejected cleanly: %r' % r, case=dict(full=enc[:-1].hex()), refails=3))
-            return
+        # "rejected with a diagnostic": every kind of invalid text, as --tx and as --txin, non-interactively (with and without --quiet): exit 1, no abnormal end,
+        # and something on stderr that says so
+        hx = enc.hex()
+        bad = [('truncated', enc[:-1].hex()), ('trailing-byte', hx + '00'), ('odd-number-of-hex-digits', hx[:-1]), ('non-hex-character', hx[:-2] + 'zz'), ('empty', '')]
+        for what, text in bad:
+            for opt in ('--tx=', '--txin='):
+                for quiet in ([], ['--quiet']):
+                    argv = quiet + ([opt + text] if opt == '--tx=' else ['--tx=' + hx, opt + text])
+                    r = cli.run(cli.binpath('btcdeb'), argv, stdin=b'0x51\n')
+                    ctx.count('cli-invalid:' + what)
+                    if r.timed_out:
+                        ctx.inconclusive += 1
+                        continue
+                    if r.abnormal or r.rc != 1 or not r.err.strip():
+                        ctx.violations.append(dict(campaign='cli', why='%s transaction text given as %s%s not rejected with a diagnostic: rc=%s stderr=%r (%s)' % (
+                            what, opt, ' with --quiet' if quiet else '', r.rc, r.err.decode(errors='replace')[-120:], r.abnormal or 'regular exit'), case=dict(full=text, option=opt, quiet=bool(quiet)), refails=3))
+                        return
 
 
 def run(tier, t0):
